@@ -331,7 +331,8 @@ func (h *c13History) ambiguous() bool {
 			return true // two deliveries at one instant: arrival order undecided
 		}
 		seen[d.At] = true
-		if boundary[d.At] && !ends[d.Serial] {
+		// (a duplicate shares its original's serial: only the copy that arrived at the return instant is the one that ended the call)
+		if boundary[d.At] && !(ends[d.Serial] && (d.At == h.RetAt || d.At == h.RenewRet)) {
 			return true
 		}
 	}
